@@ -147,6 +147,45 @@ func (k c05) namedKey(c *rt.Ctx) {
 	}
 }
 
+// aggrMixed: an aggregate field that also uses a GROUP BY field by name outside the aggregate
+// call (sum(strlen(k)) + strlen(k)): the name stands for the group's value, whatever the cache
+// remembers of the last scanned pair.
+func (k c05) aggrMixed(c *rt.Ctx) {
+	r := c.R
+	var ps []refstore.Pair
+	for i, n := 0, r.Range(4, 14); i < n; i++ {
+		ps = append(ps, refstore.Pair{K: fmt.Sprintf("%s%02d", []string{"a", "bb", "ccc"}[i%3], i), V: fmt.Sprint((i * 7) % 11)})
+	}
+	ps = refstore.New(ps).Pairs()
+	var gdef *gen.Node
+	switch r.Intn(3) {
+	case 0:
+		gdef = gen.Key()
+	case 1:
+		gdef = gen.Call("upper", gen.Key())
+	default:
+		gdef = gen.Value()
+	}
+	g := func() *gen.Node { return gen.Ref("g", gdef) }
+	var f *gen.Node
+	switch r.Intn(4) {
+	case 0:
+		f = gen.Bin("+", gen.Call("sum", gen.Call("strlen", g())), gen.Call("strlen", g()))
+	case 1:
+		f = gen.Bin("*", gen.Call("count", gen.Int(1)), gen.Call("strlen", g()))
+	case 2:
+		f = gen.Bin("+", gen.Call("strlen", g()), gen.Call("max", gen.Call("strlen", gen.Value())))
+	default:
+		f = gen.Bin("-", gen.Bin("+", gen.Call("sum", gen.Call("int", gen.Value())), gen.Call("strlen", g())), gen.Call("strlen", g()))
+	}
+	w := []*gen.Node{gen.Bool(true), gen.Bin(">=", gen.Call("int", gen.Value()), gen.Int(int64(r.Range(0, 5)))), gen.Bin("!=", g(), gen.Str("a00"))}[r.Intn(3)]
+	stmt := &gen.Stmt{Kind: "select", Fields: []gen.Field{{E: gdef, Alias: "g"}, {E: f, Alias: "z"}}, Where: w, GroupBy: []string{"g"}}
+	c.Rec.Inc("group_field_named_beside_an_aggregate")
+	if hit := k.judge(c, stmt, ps, ""); hit != "" {
+		k.judge(c, stmt, ps, stmt.Text(gen.Plain))
+	}
+}
+
 // vectors: a list-valued field used by name in several distance calls (and in the filter):
 // every use must see the field's own value.
 func (k c05) vectors(c *rt.Ctx) {
@@ -194,6 +233,10 @@ func (k c05) Run(c *rt.Ctx) {
 	}
 	if r.Chance(1, 15) {
 		k.namedKey(c)
+		return
+	}
+	if r.Chance(1, 15) {
+		k.aggrMixed(c)
 		return
 	}
 	st := gen.NewStore(r, c05Families[r.Intn(len(c05Families))])
